@@ -41,6 +41,8 @@ ASSUMPTIONS = [
   "after a handler raised, whether the remaining handlers of that delivery run is not judged",
   "raising the class form of an undeclared type with no listeners is not judged (the statement only names instances)",
   "unsubscribe operations refer to subscriptions that were made at some point in the history (possibly already gone)",
+  "a handler (bound method) has at most one subscription per (source, type) at a time: the statement speaks of handlers, not subscriptions, so a doubly subscribed handler is an ambiguous zone; the generator substitutes another method of the same owner",
+  "owner death is observed through a weakref (never predicted) except for owners that were only ever subscribed weakly and are dropped outside any delivery: those must be collectable",
 ]
 EXHAUSTIVE_SCOPE = {
   "quick": "all operation sequences (with repetition) of length <= 4 over the three fixed alphabets 'prio' (12 ops), 'remove' (14 ops) and 'weak' (16 ops), fixed handler scripts",
@@ -725,5 +727,5 @@ def plan(tier):
     Enum("seq-prio", lambda: _enum("prio", 5), shards=16),
     Enum("seq-remove", lambda: _enum("remove", 5), shards=16),
     Enum("seq-weak", lambda: _enum("weak", 5), shards=16),
-    Hyp("histories", lambda: _strategy(tier), examples=250000, shards=16),
+    Hyp("histories", lambda: _strategy(tier), examples=150000, shards=16),
   ]
